@@ -166,25 +166,26 @@ func (w *world) honestReply(back *session, code uint64, payload []byte) (uint64,
 }
 
 type scenario struct {
-	w      *world
-	rng    *rand.Rand
-	out    *Out
-	l      *BareNode
-	pm     *protocol.ProtocolManager
-	la     uint64 // height of the node at the start
-	A, B   *remote
-	C      *remote
-	bMode  string
-	bTD    uint64
-	desc   []interface{}
-	mu     sync.Mutex
-	bActs  []string // what B did (in order)
-	bViol  int32    // B sent something the handler answers with an error
-	winN   int
-	done   chan struct{}
-	aReqs  int64
-	aWorst time.Duration
-	over   bool // (under w.omu) the scenario's goroutine is writing its verdicts: no more records from others
+	w           *world
+	rng         *rand.Rand
+	out         *Out
+	l           *BareNode
+	pm          *protocol.ProtocolManager
+	la          uint64 // height of the node at the start
+	A, B        *remote
+	C           *remote
+	bMode       string
+	bTD         uint64
+	desc        []interface{}
+	mu          sync.Mutex
+	bActs       []string // what B did (in order)
+	bViol       int32    // B sent something the handler answers with an error
+	winN        int
+	done        chan struct{}
+	aReqs       int64
+	aWorst      time.Duration
+	honestDelay bool // honest peers answer after a network delay also outside the windows
+	over        bool // (under w.omu) the scenario's goroutine is writing its verdicts: no more records from others
 }
 
 // a progress record from one of the peers' goroutines
@@ -283,6 +284,9 @@ func (s *scenario) serveHonest(r *remote, back *session, windows bool, stop chan
 				if d := time.Since(t0); d > s.aWorst {
 					s.aWorst = d
 				}
+			}
+			if !windows && s.honestDelay {
+				time.Sleep(time.Duration(s.delay()) * time.Millisecond)
 			}
 			r.sendRaw(baseLen+code, payload, 60*time.Second)
 		default:
